@@ -324,11 +324,11 @@ add("C08", "fixed", "outcome-altered:output_stream_limit:escapes-UnicodeEncodeEr
     [{"source": "{{ s }}", "partials": {}, "data": V.enc({"s": "\ud800", "xs": [1]})}, {"source": "a{{ s }}b{{ s }}", "partials": {}, "data": V.enc({"s": "x\udfffy", "xs": [1]})}], "51937a8")
 
 # ----------------------------------------------------------------------------- C01 open (found by the thorough tier once C01 rendered extends chains)
-add("C01", "open", "render-differs:python-stack-exhausted-on-one-side:extends-blocks",
+add("C01", "fixed", "render-differs:python-stack-exhausted-on-one-side:extends-blocks",
     "block definitions that re-enter each other through block.super (x{ y{ super } } over y{ x{} }) recurse until something stops them: the synchronous renderer reaches the context depth "
     "limit (ContextDepthError, or a suppressed error in warn mode) while the asynchronous renderer, which needs more Python frames per level, runs out of stack first and lets RecursionError "
-    "escape. Same root cause as C09's open stack-exhaustion findings; not repaired for the reason given there",
-    json.load(open(os.path.join(VERIF, "tools", "witnesses", "C01-stack.json"))))
+    "escape. Same root cause as C09's open stack-exhaustion findings; since d7e3ee3 both renderers end in ContextDepthError (the stack is still exhausted on the way: C09 keeps its findings)",
+    json.load(open(os.path.join(VERIF, "tools", "witnesses", "C01-stack.json"))), "d7e3ee3")
 
 # ----------------------------------------------------------------------------- C02 round 4 (both first reported by an independent sub-agent)
 add("C02", "open", "escape:OverflowError[len-of-huge-range]",
@@ -479,6 +479,10 @@ add("C13", "fixed", "tablerow-structure:cols+break", "tablerow: a break in the l
     "non-numeric cols every cell reported tablerowloop.row == 2 inside <tr class=\"row1\"> (R-loop had copied that stepping rule from the code: the structural monitor does not)",
     [{"kind": "tablerow-structure", "source": "{% tablerow i in (1..2) cols: 1 %}r{{ tablerowloop.row }}c{{ tablerowloop.col }}i{{ tablerowloop.index }};{% if tablerowloop.index == 1 %}{% break %}{% endif %}{% endtablerow %}", "n": 2, "cols": 1, "stop": "break", "at": 1},
      {"kind": "tablerow-structure", "source": "{% tablerow i in (1..1) cols: 0 %}r{{ tablerowloop.row }}c{{ tablerowloop.col }}i{{ tablerowloop.index }};{% endtablerow %}", "n": 1, "cols": 0, "stop": None, "at": None}], "d5e83ee")
+
+add("C09", "fixed", "render-exceeds-step-budget:include:lax-mode-fanout", "in lax / warn mode a template that includes (renders) itself twice inside a dozen nested blocks ran out of stack before the context depth limit; "
+    "the RecursionError came back re-labelled as a parsing error, which the tolerant mode reported node by node and carried on from: 2^depth branches, a hang on the logical clock",
+    [{"kind": "family", "family": "include", "cycle": 1, "wrappers": ["if"] * 13, "async": False, "must_cut": False, "mode": "lax", "fanout": 2}], "d7e3ee3")
 
 if __name__ == "__main__":
     # further entries are appended by tools/mkfindings.py from triaged replay files and kept in findings_extra.json
